@@ -5,10 +5,11 @@ package vm
 // Contracts for the virtual machine.
 
 //@ func (*VirtualMachine).Clone
-//@ props C05 C12
+//@ props C05 C12 C09
 //@ commute 1
 //@ commute 2
 //@ requires vm != nil
+//@ requires[C09.unlocked] !ghost("lock.w", bool, &vm.cloneMutex)
 //@ ensures[C12.clone.os] err == nil ==> result0 != nil && result0.os == old(vm.os)
 
 //@ func (*VirtualMachine).applyOptions
@@ -68,9 +69,10 @@ package vm
 //@ assumeframe
 
 //@ func (*VirtualMachine).importModule
-//@ props C12
+//@ props C12 C09
 //@ requires[C12.ctx] ctx != nil && hasos(ctx)
 //@ requires vm != nil
+//@ requires[C09.unlocked] !ghost("lock.w", bool, &vm.cloneMutex)
 //@ modcomps H_ E_ M G_ C_
 //@ assumeframe
 
@@ -80,18 +82,21 @@ package vm
 //@ nocontract start stop
 
 //@ func (*VirtualMachine).cloneCallSync
-//@ props C12
+//@ props C12 C09
 //@ requires vm != nil && ctx != nil
+//@ requires[C09.unlocked] !ghost("lock.w", bool, &vm.cloneMutex)
 
 //@ func (*VirtualMachine).cloneCallAsync
-//@ props C12
+//@ props C12 C09
 //@ requires vm != nil && ctx != nil
+//@ requires[C09.unlocked] !ghost("lock.w", bool, &vm.cloneMutex)
 
 //@ scan[C12.freshctx.vm] C12 extcalls context.Background,context.TODO:
 
 //@ func (*VirtualMachine).runCodeInternal
 //@ props C12
 //@ requires vm != nil && ctx != nil
+//@ havoc start stop
 //@ modcomps H_ E_ M G_ C_
 //@ assumeframe
 
@@ -108,3 +113,9 @@ package vm
 //@ requires vm != nil
 //@ modcomps H_ E_ M G_ C_
 //@ assumeframe
+
+//@ scan[C09.globals.vm] C09 pkgglobals github.com/risor-io/risor/vm:
+
+// C09: the VM never calls a function that writes compiled code (the writers are listed by the scan
+// C09.code.writers in package compiler): it only reads *compiler.Code and wraps it in its own code objects.
+//@ scan[C09.vm.nocodewriters] C09 extcalls github.com/risor-io/risor/compiler.(*Compiler).*,github.com/risor-io/risor/compiler.New,github.com/risor-io/risor/compiler.Compile,github.com/risor-io/risor/compiler.(*Code).addName,github.com/risor-io/risor/compiler.(*Code).newChild,github.com/risor-io/risor/compiler.codeFromState,github.com/risor-io/risor/compiler.UnmarshalCode,github.com/risor-io/risor/compiler.(*loop).end: newVM
